@@ -213,6 +213,15 @@ def examine(case):
 
 
 def shard(ctx, payload):
+    import time as _t
+    _t0 = _t.time()
+    try:
+        _shard(ctx, payload)
+    finally:
+        ctx.extra.setdefault('shard_seconds', {})['%s/%s' % (payload[0], 'warm' if payload[3] else 'cold')] = round(_t.time() - _t0, 1)
+
+
+def _shard(ctx, payload):
     name, names, fill, warm, thorough = payload
     sc = Scenario(name, names, fill, warm)
     rng = random.Random(derive_seed(ctx.seed, 'C16', name, warm))
@@ -261,6 +270,8 @@ def shard(ctx, payload):
     # performed): a stops within its first lines x every point of b, and every point of a x b stops within its first lines
     early = 10 if thorough else 4
     cap_b, cap_a = (100000, 100000) if thorough else (120, 60)
+    if not thorough and (n > 2 or name.startswith(('va', 'sv'))):
+        cap_b, cap_a = 50, 25          # six ordered pairs / millisecond-long validations: keep the quick tier quick
     if not warm or thorough:
         for a in range(n):
             for b in range(n):
@@ -302,6 +313,10 @@ def run(ctx):
     for name, names, fill in SCENARIOS:
         for warm in (False, True):
             payloads.append((name, names, fill, warm, thorough))
+    # heaviest first (cold, three threads, Sportshall's 5000-line load, validations): better balance over the pool
+    def weight(p):
+        return (0 if not p[3] else 1, -len(p[1]), 0 if p[0].startswith(('sportshall', 'va', 'sv', 'factor', 'grade')) else 1)
+    payloads.sort(key=weight)
     run_shards(ctx, 'checks.c16', 'shard', payloads, disjoint=True)
 
     # Hypothesis-drawn schedules (shrinkable): scenario x first runner x up to 3 pre-emptions
